@@ -298,6 +298,71 @@ func c04mirrors(p *core.Prog, res *core.Result, u *unitCollector, rels []string,
 			if ctors == 0 {
 				res.Unres(rule, k, p.Pos(pr.where), "no constructor found for "+core.TypeKey(pr.owner))
 			}
+			// R2b: every method keeps the mirror and the family in step — whoever removes the
+			// persisted entry removes the in-memory one and vice versa, likewise for additions
+			for _, fi := range p.AllDecls() {
+				if fi.Pkg != kc.Pkg || fi.Decl.Body == nil || fi.Decl.Recv == nil || core.RecvNamed(fi.Obj) != pr.owner {
+					continue
+				}
+				var recvObj types.Object
+				if len(fi.Decl.Recv.List) > 0 && len(fi.Decl.Recv.List[0].Names) > 0 {
+					recvObj = info.Defs[fi.Decl.Recv.List[0].Names[0]]
+				}
+				isMirror := func(e ast.Expr) bool {
+					sel, ok := ast.Unparen(e).(*ast.SelectorExpr)
+					if !ok || recvObj == nil || defOrUse(info, sel.X) != recvObj {
+						return false
+					}
+					sl := info.Selections[sel]
+					return sl != nil && sl.Obj() == pr.field
+				}
+				mAdd, mDel, sSet, sDel := false, false, false, false
+				ast.Inspect(fi.Decl.Body, func(n ast.Node) bool {
+					switch x := n.(type) {
+					case *ast.AssignStmt:
+						for _, l := range x.Lhs {
+							if ix, ok := ast.Unparen(l).(*ast.IndexExpr); ok && isMirror(ix.X) {
+								mAdd = true
+							} else if isMirror(l) {
+								mAdd = true
+							}
+						}
+					case *ast.CallExpr:
+						if isBuiltin2(info, x, "delete") && len(x.Args) == 2 && isMirror(x.Args[0]) {
+							mDel = true
+						}
+						if op, _, ai := kvOp(info, x); op == "Set" || op == "Delete" {
+							for _, f := range u.famsOf(fi, fi.Decl.Body, x.Args[ai]) {
+								if f == pr.fam {
+									if op == "Set" {
+										sSet = true
+									} else {
+										sDel = true
+									}
+								}
+							}
+						}
+					}
+					return true
+				})
+				if !(mAdd || mDel || sSet || sDel) {
+					continue
+				}
+				key := k + "|in step|" + core.FuncKey(fi.Obj)
+				res.Fn(core.FuncKey(fi.Obj))
+				var bad []string
+				if sDel != mDel {
+					bad = append(bad, fmt.Sprintf("removes the persisted entry: %v, removes the in-memory entry: %v", sDel, mDel))
+				}
+				if sSet != mAdd {
+					bad = append(bad, fmt.Sprintf("writes the persisted entry: %v, adds the in-memory entry: %v", sSet, mAdd))
+				}
+				if len(bad) > 0 {
+					res.Bad("R2b", key, p.Pos(fi.Decl.Pos()), fmt.Sprintf("%s updates only one side of the pair %s.%s ↔ key family %s (%s): the running process and a process started later from the same store disagree about what is registered", core.FuncKey(fi.Obj), pr.owner.Obj().Name(), pr.field.Name(), pr.fam, strings.Join(bad, "; ")))
+				} else {
+					res.OK("R2b", key, p.Pos(fi.Decl.Pos()), "updates the in-memory mirror and the persisted family together")
+				}
+			}
 		}
 	}
 	return found
@@ -350,12 +415,13 @@ func newUnitCollector(p *core.Prog, rels ...string) *unitCollector {
 func c04(p *core.Prog, res *core.Result) {
 	res.Explanation = "C04 (structural clauses): R1 one atomic unit per request — for every mutating operation of the embedded driver the store writes that touch the mutually-constrained key families " +
 		"(vertex/edge records v,e; adjacency s,d; label-index entries i,t) are all issued inside a single BulkWrite/Update callback (each top-level kv.Set/Delete/DeletePrefix is its own atomic write — the property's crash model). " +
-		"R2 persisted registries are rebuilt at open — every in-memory map/slice field that some method updates together with a store write of key family F is rebuilt from family F by every constructor of its struct. " +
+		"R2b every method of the owner that adds/removes an entry of such a mirror also writes/deletes the persisted entry, and vice versa; R2 persisted registries are rebuilt at open — every in-memory map/slice field that some method updates together with a store write of key family F is rebuilt from family F by every constructor of its struct. " +
 		"R3 AddGraph registers the label-index fields before it writes the graph key (a crash in between must not leave a visible graph without its label index)."
 	res.NotDecided = []string{"equality of the observable graph across reopen (value-level)", "atomicity inside a driver's Update/BulkWrite (C10)", "durability of acknowledged writes inside the storage engines"}
 	res.Assumptions = []string{"each top-level KVInterface.Set/Delete/DeletePrefix and each Update/BulkWrite callback is atomic in the underlying store (the property's crash model)"}
 	res.Rule("R1", "writes to mutually-constrained key families of one request happen in one atomic unit", 6)
 	res.Rule("R2", "every in-memory mirror of a persisted key family is rebuilt by every constructor", 1)
+	res.Rule("R2b", "methods update a mirror and its persisted family together", 2)
 	res.Rule("R3", "AddGraph: index-field registration precedes the graph key write on every path", 1)
 
 	u := newUnitCollector(p, "kvgraph", "kvindex")
